@@ -14,11 +14,12 @@ EXTENDS Vec, SequencesExt, FiniteSetsExt
 
 VARIABLES v_lvl, v_idx
 
-Modes == {"plain", "with", "only", "withonly", "withvar", "withvaronly"}     \* withvar: the hash is a variable of the host
+Modes == {"plain", "with", "only", "withonly", "withvar", "withvaronly", "withgo", "withgoonly"}     \* withvar: the hash is a variable of the host; withgo: a Go map[string]int handed in through the context
 Sites == {"top", "loop", "block", "macro"}
-HasWith(m) == m \in {"with", "withonly", "withvar", "withvaronly"}
+HasWith(m) == m \in {"with", "withonly", "withvar", "withvaronly", "withgo", "withgoonly"}
 WithVar(m) == m \in {"withvar", "withvaronly"}
-IsOnly(m) == m \in {"only", "withonly", "withvaronly"}
+IsOnly(m) == m \in {"only", "withonly", "withvaronly", "withgoonly"}
+WithGo(m) == m \in {"withgo", "withgoonly"}
 OverSpecs == {<<>>, <<"p">>, <<"q">>, <<"p", "q">>, <<"pP">>, <<"pP", "qP">>, <<"pN">>, <<"pE", "q">>}
   \* xP = override calling parent(); pN = override of p whose body contains a nested block q (which overrides the target's q as well)
 OName(o) == SubSeq(o, 1, 1)
@@ -37,7 +38,7 @@ Configs ==
 
 WithHash == HashE(<< <<NameE("w"), IntE(3)>>, <<NameE("a"), IntE(9)>> >>)
 X(c, ov) ==
-  LET with == IF WithVar(c.mode) THEN NameE("wh") ELSE IF HasWith(c.mode) THEN WithHash ELSE NoE IN
+  LET with == IF WithVar(c.mode) THEN NameE("wh") ELSE IF WithGo(c.mode) THEN NameE("gw") ELSE IF HasWith(c.mode) THEN WithHash ELSE NoE IN
   IF c.kind = "include" THEN IncludeS(StrE(c.target), with, IsOnly(c.mode))
   ELSE EmbedS(StrE(c.target), with, IsOnly(c.mode),
               [q \in 1..Len(ov) |-> [name |-> OName(ov[q]),
@@ -111,9 +112,12 @@ Picked == 1..Len(Cases)
 Init == GenInit(v_lvl, v_idx)
 Next == GenNext(v_lvl, v_idx, Picked, 32)
 Cur == Cases[v_idx]
-Ref == Execute(Templates(Cur), "h", EmptyScope)
-Out == v_lvl < 2 \/ Emit(RenderVec("C10-" \o ToString(v_idx), Cur.kind, Templates(Cur), "h", EmptyScope,
-                                   [nt |-> Cur.hostp \/ Cur.target = "ts" \/ HasWith(Cur.mode)]))
+(* gw: the same hash as WithHash, as the specification sees it and as the Go value the harness hands in (a map[string]int) *)
+CtxRef == "gw" :> Hash(<< <<S2B("w"), IntV(3)>>, <<S2B("a"), IntV(9)>> >>)
+CtxGo == "gw" :> [t |-> "go", id |-> "map:si:w=3,a=9"]
+Ref == Execute(Templates(Cur), "h", CtxRef)
+Out == v_lvl < 2 \/ Emit([RenderVec("C10-" \o ToString(v_idx), Cur.kind, Templates(Cur), "h", CtxRef,
+                                    [nt |-> Cur.hostp \/ Cur.target = "ts" \/ HasWith(Cur.mode)]) EXCEPT !.ctx = CtxGo])
 
 IsolationAndContext == v_lvl = 2 => LET R == Ref IN (R.status = "ok" /\ MainOut(R) = S2B(Expected(Cur)))
 =============================================================================
